@@ -88,7 +88,18 @@ Proof.
                 end) l m = true -> l = m).
   { fix IHl 1. intros [|x l] [|y m]; try discriminate; try reflexivity.
     intros H. apply andb_prop in H as [H1 H2]. f_equal; [now apply IH | now apply IHl]. }
+  assert (LP : forall l m,
+             (fix gop (l m : list (pv * pv)) : bool :=
+                match l, m with
+                | [], [] => true
+                | (k, x) :: l', (k', y) :: m' => pv_eqb k k' && pv_eqb x y && gop l' m'
+                | _, _ => false
+                end) l m = true -> l = m).
+  { fix IHl 1. intros [|[k x] l] [|[k' y] m]; try discriminate; try reflexivity.
+    intros H. apply andb_prop in H as [H1 H3]. apply andb_prop in H1 as [H1 H2].
+    f_equal; [f_equal; now apply IH | now apply IHl]. }
   intros a b; destruct a, b; cbn; try discriminate; try reflexivity; intros H;
+    try (apply LP in H; now subst);
     try (apply Z.eqb_eq in H; now subst);
     try (apply Bool.eqb_prop in H; now subst);
     try (apply fl_same_true in H; now subst);
@@ -118,7 +129,15 @@ Proof.
                 | _, _ => false
                 end) l l = true).
   { fix IHl 1. intros [|x l]; [reflexivity|]. now rewrite IH, IHl. }
-  intros a; destruct a; cbn; try reflexivity;
+  assert (LP : forall l,
+             (fix gop (l m : list (pv * pv)) : bool :=
+                match l, m with
+                | [], [] => true
+                | (k, x) :: l', (k', y) :: m' => pv_eqb k k' && pv_eqb x y && gop l' m'
+                | _, _ => false
+                end) l l = true).
+  { fix IHl 1. intros [|[k x] l]; [reflexivity|]. now rewrite !IH, IHl. }
+  intros a; destruct a; cbn; try reflexivity; try apply LP;
     try apply Z.eqb_refl; try apply Bool.eqb_reflx; try apply fl_same_refl; try apply zlist_eqb_refl; try apply L.
   - now rewrite !fl_same_refl.
   - now rewrite !Z.eqb_refl.
@@ -489,10 +508,12 @@ Qed.
 Section desc_ind_nested.
   Variable P : desc -> Prop.
   Hypothesis Hleaf : forall d, (forall ds, d <> DTuple ds /\ d <> DCompound ds /\ d <> DUnion ds) ->
-                               (forall d', d <> DProperty d' /\ (forall ds fv, d <> DVTuple ds fv) /\ forall mn mx, d <> DList d' mn mx) -> P d.
+                               (forall d', d <> DProperty d' /\ (forall ds fv, d <> DVTuple ds fv) /\ (forall mn mx, d <> DList d' mn mx)
+                                           /\ forall d2, d <> DDict d' d2) -> P d.
   Hypothesis Hprop : forall d, P d -> P (DProperty d).
   Hypothesis Hvtuple : forall ds fv, Forall P ds -> P (DVTuple ds fv).
   Hypothesis Hlist : forall d mn mx, P d -> P (DList d mn mx).
+  Hypothesis Hdict : forall kd vd, P kd -> P vd -> P (DDict kd vd).
   Hypothesis Htuple : forall ds, Forall P ds -> P (DTuple ds).
   Hypothesis Hcomp : forall ds, Forall P ds -> P (DCompound ds).
   Hypothesis Hunion : forall ds, Forall P ds -> P (DUnion ds).
@@ -509,6 +530,7 @@ Section desc_ind_nested.
     - apply Hprop, desc_ind'.
     - apply Hvtuple, L.
     - apply Hlist, desc_ind'.
+    - apply Hdict; apply desc_ind'.
   Defined.
 End desc_ind_nested.
 
@@ -527,8 +549,8 @@ Definition alt_eq_at (E : env) (v : pv) (a : desc) : Prop :=
 
 Lemma alt_eq E v : bool_final E = true -> no_tuplesub v = true -> forall a, alt_eq_at E v a.
 Proof.
-  intros HB HT a. induction a as [d H Hnp|d IHd|ds fv H|d mn mx IHd|ds H|ds H|ds H] using desc_ind'.
-  2,3,4: (intros _ _ Hf; discriminate).      (* Property, ValidatedTuple, List: never fast *)
+  intros HB HT a. induction a as [d H Hnp|d IHd|ds fv H|d mn mx IHd|kd vd IHk IHv|ds H|ds H|ds H] using desc_ind'.
+  2,3,4,5: (intros _ _ Hf; discriminate).      (* Property, ValidatedTuple, List, Dict: never fast *)
   - (* leaves *) intros _ Hok Hf Hb.
     assert (Hb' : cast_no_escape E v d && none_ok E d && proxy_ok d v && adapt_ok d = true).
     { destruct d; try exact Hb. exfalso. destruct (H ds) as (_ & Hc & _). now apply Hc. }
